@@ -489,10 +489,42 @@ def check_binary(ctx):
                '%s adds no attribute that the inherited __reduce__ would drop' % cls, 'declares %s' % sorted(own) if own else '')
 
 
+def check_copy_protocol(ctx):
+    """copy.deepcopy / copy.copy of every class of the three modules goes through the reducer and state methods the other rules analyse
+    (deepcopy then copies every component recursively): a class that brings its own __deepcopy__ / __copy__ is only accepted when that
+    method is a full deep copy by construction - a pickle round trip, or copy.deepcopy of the whole state with the memo."""
+    prog = ctx.prog
+    n = 0
+    for cname, ci in sorted(prog.classes.items()):
+        for meth in ('__deepcopy__', '__copy__'):
+            f = ci.methods.get(meth)
+            if f is None:
+                continue
+            n += 1
+            calls = [src(c.func).replace(' ', '') for c in ast.walk(f) if isinstance(c, ast.Call)]
+            full = False
+            for c in ast.walk(f):
+                if isinstance(c, ast.Call) and src(c.func).replace(' ', '') in ('copy.deepcopy', 'deepcopy') and c.args:
+                    a0 = src(c.args[0]).replace(' ', '')
+                    if a0 in ('self.__getstate__()', 'self.__reduce__()', 'self.__reduce_ex__(2)', 'self.__reduce_ex__(4)'):
+                        full = True
+                if isinstance(c, ast.Call) and src(c.func).replace(' ', '') in ('pickle.loads', 'loads') and c.args and isinstance(c.args[0], ast.Call) \
+                        and src(c.args[0].func).replace(' ', '') in ('pickle.dumps', 'dumps') and c.args[0].args and src(c.args[0].args[0]) == 'self':
+                    full = True
+            mod_ = getattr(f, '_module', 'types')
+            ctx.ob('R17.5-copy-protocol', '%s.%s' % (cname, meth), full and meth == '__deepcopy__', ctx.loc(mod_ if mod_ in prog.mods else 'types', f),
+                   'a hand-written copy method copies every component (pickle round trip or deepcopy of the whole state)',
+                   '' if full else 'components of the state are handed to the copy as they are (calls: %s): mutable ones - dictionaries, lists of '
+                   'tuples, expression objects - stay shared with the original' % sorted(set(calls))[:8])
+    ctx.ob('R17.5-copy-protocol', 'classes', True, '', 'deep copies of the %d classes of types / simulator / lineage go through their reducers and '
+           'state methods (%d hand-written copy methods found and inspected)' % (len(prog.classes), n), '')
+
+
 def check(ctx):
     prog = ctx.prog
     for m in ('types', 'types.pxd', 'simulator', 'simulator.pxd', 'lineage', 'lineage.pxd'):
         prog.mod(m)
+    check_copy_protocol(ctx)
     covered = check_pairs(ctx)
     check_coverage(ctx, covered)
     check_reduce_coverage(ctx)
